@@ -1,100 +1,12 @@
-import Soa.Model.SkelExpected
-import Soa.Extracted.Skel
-/-!
-# The templates extracted on this run read as the expected skeletons
-
-Decided by the kernel on the regenerated table `Soa/Extracted/Skel.lean`. Generated by `bin/reskel`.
--/
+import Soa.Lemmas.SkelRead.C01
+import Soa.Lemmas.SkelRead.C05
+import Soa.Lemmas.SkelRead.C07
+import Soa.Lemmas.SkelRead.C10
+import Soa.Lemmas.SkelRead.C12
+import Soa.Lemmas.SkelRead.C15
+/-! all skeleton readings (one module per property scope, so that a change of one generated function breaks the
+    obligations of the properties whose model covers it and no others) -/
 namespace Soa.Sk
-open Soa.Extracted Soa.Sk.Expected
-
-theorem read_PVec_with_capacity : skOf sk_PVec_with_capacity = exp_PVec_with_capacity := by decide
-theorem read_PVec_capacity : skOf sk_PVec_capacity = exp_PVec_capacity := by decide
-theorem read_PVec_reserve : skOf sk_PVec_reserve = exp_PVec_reserve := by decide
-theorem read_PVec_reserve_exact : skOf sk_PVec_reserve_exact = exp_PVec_reserve_exact := by decide
-theorem read_PVec_shrink_to_fit : skOf sk_PVec_shrink_to_fit = exp_PVec_shrink_to_fit := by decide
-theorem read_PVec_push : skOf sk_PVec_push = exp_PVec_push := by decide
-theorem read_PVec_len : skOf sk_PVec_len = exp_PVec_len := by decide
-theorem read_PVec_is_empty : skOf sk_PVec_is_empty = exp_PVec_is_empty := by decide
-theorem read_PVec_swap_remove : skOf sk_PVec_swap_remove = exp_PVec_swap_remove := by decide
-theorem read_PVec_insert : skOf sk_PVec_insert = exp_PVec_insert := by decide
-theorem read_PVec_replace : skOf sk_PVec_replace = exp_PVec_replace := by decide
-theorem read_PVec_remove : skOf sk_PVec_remove = exp_PVec_remove := by decide
-theorem read_PVec_pop : skOf sk_PVec_pop = exp_PVec_pop := by decide
-theorem read_PVec_append : skOf sk_PVec_append = exp_PVec_append := by decide
-theorem read_PVec_split_off : skOf sk_PVec_split_off = exp_PVec_split_off := by decide
-theorem read_PVec_as_slice : skOf sk_PVec_as_slice = exp_PVec_as_slice := by decide
-theorem read_PVec_as_mut_slice : skOf sk_PVec_as_mut_slice = exp_PVec_as_mut_slice := by decide
-theorem read_PVec_slice : skOf sk_PVec_slice = exp_PVec_slice := by decide
-theorem read_PVec_slice_mut : skOf sk_PVec_slice_mut = exp_PVec_slice_mut := by decide
-theorem read_PVec_as_ptr : skOf sk_PVec_as_ptr = exp_PVec_as_ptr := by decide
-theorem read_PVec_as_mut_ptr : skOf sk_PVec_as_mut_ptr = exp_PVec_as_mut_ptr := by decide
-theorem read_PVec_from_raw_parts : skOf sk_PVec_from_raw_parts = exp_PVec_from_raw_parts := by decide
-theorem read_P_as_ref : skOf sk_P_as_ref = exp_P_as_ref := by decide
-theorem read_P_as_mut : skOf sk_P_as_mut = exp_P_as_mut := by decide
-theorem read_PRef_a_to_owned : skOf sk_PRef_a_to_owned = exp_PRef_a_to_owned := by decide
-theorem read_PRefMut_a_to_owned : skOf sk_PRefMut_a_to_owned = exp_PRefMut_a_to_owned := by decide
-theorem read_PRefMut_a_replace : skOf sk_PRefMut_a_replace = exp_PRefMut_a_replace := by decide
-theorem read_PPtr_as_mut_ptr : skOf sk_PPtr_as_mut_ptr = exp_PPtr_as_mut_ptr := by decide
-theorem read_PPtr_is_null : skOf sk_PPtr_is_null = exp_PPtr_is_null := by decide
-theorem read_PPtr_as_ref : skOf sk_PPtr_as_ref = exp_PPtr_as_ref := by decide
-theorem read_PPtr_offset : skOf sk_PPtr_offset = exp_PPtr_offset := by decide
-theorem read_PPtr_wrapping_offset : skOf sk_PPtr_wrapping_offset = exp_PPtr_wrapping_offset := by decide
-theorem read_PPtr_add : skOf sk_PPtr_add = exp_PPtr_add := by decide
-theorem read_PPtr_sub : skOf sk_PPtr_sub = exp_PPtr_sub := by decide
-theorem read_PPtr_wrapping_add : skOf sk_PPtr_wrapping_add = exp_PPtr_wrapping_add := by decide
-theorem read_PPtr_wrapping_sub : skOf sk_PPtr_wrapping_sub = exp_PPtr_wrapping_sub := by decide
-theorem read_PPtr_read : skOf sk_PPtr_read = exp_PPtr_read := by decide
-theorem read_PPtr_read_volatile : skOf sk_PPtr_read_volatile = exp_PPtr_read_volatile := by decide
-theorem read_PPtr_read_unaligned : skOf sk_PPtr_read_unaligned = exp_PPtr_read_unaligned := by decide
-theorem read_PPtrMut_as_ptr : skOf sk_PPtrMut_as_ptr = exp_PPtrMut_as_ptr := by decide
-theorem read_PPtrMut_is_null : skOf sk_PPtrMut_is_null = exp_PPtrMut_is_null := by decide
-theorem read_PPtrMut_as_ref : skOf sk_PPtrMut_as_ref = exp_PPtrMut_as_ref := by decide
-theorem read_PPtrMut_as_mut : skOf sk_PPtrMut_as_mut = exp_PPtrMut_as_mut := by decide
-theorem read_PPtrMut_offset : skOf sk_PPtrMut_offset = exp_PPtrMut_offset := by decide
-theorem read_PPtrMut_wrapping_offset : skOf sk_PPtrMut_wrapping_offset = exp_PPtrMut_wrapping_offset := by decide
-theorem read_PPtrMut_add : skOf sk_PPtrMut_add = exp_PPtrMut_add := by decide
-theorem read_PPtrMut_sub : skOf sk_PPtrMut_sub = exp_PPtrMut_sub := by decide
-theorem read_PPtrMut_wrapping_add : skOf sk_PPtrMut_wrapping_add = exp_PPtrMut_wrapping_add := by decide
-theorem read_PPtrMut_wrapping_sub : skOf sk_PPtrMut_wrapping_sub = exp_PPtrMut_wrapping_sub := by decide
-theorem read_PPtrMut_read : skOf sk_PPtrMut_read = exp_PPtrMut_read := by decide
-theorem read_PPtrMut_read_volatile : skOf sk_PPtrMut_read_volatile = exp_PPtrMut_read_volatile := by decide
-theorem read_PPtrMut_read_unaligned : skOf sk_PPtrMut_read_unaligned = exp_PPtrMut_read_unaligned := by decide
-theorem read_PPtrMut_write : skOf sk_PPtrMut_write = exp_PPtrMut_write := by decide
-theorem read_PPtrMut_write_volatile : skOf sk_PPtrMut_write_volatile = exp_PPtrMut_write_volatile := by decide
-theorem read_PPtrMut_write_unaligned : skOf sk_PPtrMut_write_unaligned = exp_PPtrMut_write_unaligned := by decide
-theorem read_PRef_a_as_ptr : skOf sk_PRef_a_as_ptr = exp_PRef_a_as_ptr := by decide
-theorem read_PRefMut_a_as_ptr : skOf sk_PRefMut_a_as_ptr = exp_PRefMut_a_as_ptr := by decide
-theorem read_PRefMut_a_as_mut_ptr : skOf sk_PRefMut_a_as_mut_ptr = exp_PRefMut_a_as_mut_ptr := by decide
-theorem read_PSlice_a_len : skOf sk_PSlice_a_len = exp_PSlice_a_len := by decide
-theorem read_PSlice_a_is_empty : skOf sk_PSlice_a_is_empty = exp_PSlice_a_is_empty := by decide
-theorem read_PSlice_a_first : skOf sk_PSlice_a_first = exp_PSlice_a_first := by decide
-theorem read_PSlice_a_split_first : skOf sk_PSlice_a_split_first = exp_PSlice_a_split_first := by decide
-theorem read_PSlice_a_last : skOf sk_PSlice_a_last = exp_PSlice_a_last := by decide
-theorem read_PSlice_a_split_last : skOf sk_PSlice_a_split_last = exp_PSlice_a_split_last := by decide
-theorem read_PSlice_a_split_at : skOf sk_PSlice_a_split_at = exp_PSlice_a_split_at := by decide
-theorem read_PSlice_a_reborrow : skOf sk_PSlice_a_reborrow = exp_PSlice_a_reborrow := by decide
-theorem read_PSlice_a_as_ptr : skOf sk_PSlice_a_as_ptr = exp_PSlice_a_as_ptr := by decide
-theorem read_PSlice_a_from_raw_parts : skOf sk_PSlice_a_from_raw_parts = exp_PSlice_a_from_raw_parts := by decide
-theorem read_PSlice_a_to_vec : skOf sk_PSlice_a_to_vec = exp_PSlice_a_to_vec := by decide
-theorem read_PSliceMut_a_as_ref : skOf sk_PSliceMut_a_as_ref = exp_PSliceMut_a_as_ref := by decide
-theorem read_PSliceMut_a_len : skOf sk_PSliceMut_a_len = exp_PSliceMut_a_len := by decide
-theorem read_PSliceMut_a_is_empty : skOf sk_PSliceMut_a_is_empty = exp_PSliceMut_a_is_empty := by decide
-theorem read_PSliceMut_a_first_mut : skOf sk_PSliceMut_a_first_mut = exp_PSliceMut_a_first_mut := by decide
-theorem read_PSliceMut_a_split_first_mut : skOf sk_PSliceMut_a_split_first_mut = exp_PSliceMut_a_split_first_mut := by decide
-theorem read_PSliceMut_a_last_mut : skOf sk_PSliceMut_a_last_mut = exp_PSliceMut_a_last_mut := by decide
-theorem read_PSliceMut_a_split_last_mut : skOf sk_PSliceMut_a_split_last_mut = exp_PSliceMut_a_split_last_mut := by decide
-theorem read_PSliceMut_a_split_at_mut : skOf sk_PSliceMut_a_split_at_mut = exp_PSliceMut_a_split_at_mut := by decide
-theorem read_PSliceMut_a_swap : skOf sk_PSliceMut_a_swap = exp_PSliceMut_a_swap := by decide
-theorem read_PSliceMut_a_as_slice : skOf sk_PSliceMut_a_as_slice = exp_PSliceMut_a_as_slice := by decide
-theorem read_PSliceMut_a_reborrow : skOf sk_PSliceMut_a_reborrow = exp_PSliceMut_a_reborrow := by decide
-theorem read_PSliceMut_a_as_ptr : skOf sk_PSliceMut_a_as_ptr = exp_PSliceMut_a_as_ptr := by decide
-theorem read_PSliceMut_a_as_mut_ptr : skOf sk_PSliceMut_a_as_mut_ptr = exp_PSliceMut_a_as_mut_ptr := by decide
-theorem read_PSliceMut_a_from_raw_parts_mut : skOf sk_PSliceMut_a_from_raw_parts_mut = exp_PSliceMut_a_from_raw_parts_mut := by decide
-theorem read_PSliceMut_a_private_apply_permutation : skOf sk_PSliceMut_a_private_apply_permutation = exp_PSliceMut_a_private_apply_permutation := by decide
-theorem read_PSliceMut_a_to_vec : skOf sk_PSliceMut_a_to_vec = exp_PSliceMut_a_to_vec := by decide
-
 /-- every generated function outside the iterator zip chains has a validated shape-generic template -/
 theorem opaque_count : Soa.Extracted.skOpaqueCount = 11 := by decide
-
 end Soa.Sk
